@@ -118,7 +118,7 @@ func frameViolations(before, after storeSnap, addr map[string]bool, bucketOp str
 var c10HostileKeys = []string{
 	".", "..", "a/../b", "../bk2/k", "../bk2/secret", "../../etc", "a/./b", "a//b", "/lead", ".hidden", "..hidden", "a\\b", "a\\..\\b", "%2e%2e/x", "%2e%2e%2fbk2%2fk",
 	"_meta", "bucket/bk2", "metadata", "buckets", "buckets/bk2/k", ".modtime-resolution", "metadata/bk1/x", "k", "k/sub", "k/sub/deep", "kk", "secret",
-	"x/../../bk2/secret", "...", "a/..", "a/../..", "..\\bk2\\k", "con", "sp ace", "ü/../ö",
+	"x/../../bk2/secret", "...", "a/..", "a/../..", "..\\bk2\\k", "con", "sp ace", "ü/../ö", "dir_file", "dir\\file", "dir/file", "dir_file_x", "k_sub", "k/sub_deep", "k_sub/deep",
 }
 
 func runC10(c *Ctx) {
